@@ -914,7 +914,7 @@ class ComposerBinary(ComposerBase):
         negative = value < 0
 
         if negative:
-            positive_value = (1 << ((value.bit_length() // 8 * 8) + 8)) + value
+            positive_value = (1 << (((~value).bit_length() // 8 * 8) + 8)) + value
         else:
             positive_value = value
 
@@ -949,7 +949,7 @@ class ComposerBinary(ComposerBase):
 
     def compose_ssh_mpint(self, value):
         negative = value < 0
-        bit_length = (value.bit_length() // 8 * 8) + 8 if negative else value.bit_length()
+        bit_length = ((~value).bit_length() // 8 * 8) + 8 if negative else value.bit_length()
         length = bit_length // 32
         if bit_length % 32:
             length += 1
